@@ -278,6 +278,13 @@ def load_one(lit: LineIterator) -> dict:
     if "Type 7 Charges" in fchk:
         atcharges["cm5"] = fchk["Type 7 Charges"]
     if atcharges:
+        for key, charges in atcharges.items():
+            if charges.size != result["atnums"].size:
+                raise LoadError(
+                    f"The number of {key} charges ({charges.size}) is inconsistent "
+                    f"with the number of atoms ({result['atnums'].size}).",
+                    lit,
+                )
         result["atcharges"] = atcharges
 
     return result
